@@ -20,6 +20,9 @@ ASSUMPTIONS = [
 
 def judge(case, rows, stats, res):
     for i, (inp, row) in enumerate(zip(case["reactions"], rows)):
+        if not pp.valid_input(inp):
+            res.tag("malformed-sibling-row")
+            continue
         pp.c01_row(res, i, inp, row)
         res.tag(*pp.row_classes(inp, row))
         if row.get("solved") and row.get("reaction") != row.get("input_reaction"):
